@@ -56,11 +56,27 @@ func mergeResults(a, b *Result) *Result {
 }
 
 func init() {
-	for _, p := range []string{"C03", "C14", "C16", "ALL", "REGION", "C02", "C01", "C11", "C15"} {
+	for _, p := range []string{"C03", "C14", "C16", "ALL", "REGION", "C02", "C11", "C15"} {
 		p := p
 		runners[p] = func(o *Options) *Result {
 			return runInterp(o, p, profiles[p], 300, 6000, corrInterp)
 		}
+	}
+	runners["C01"] = func(o *Options) *Result {
+		res := runInterp(o, "C01", profiles["C01"], 300, 6000, corrInterp)
+		if res.InfraError != "" || o.Replay != "" {
+			return res
+		}
+		n := 1500
+		if o.Tier == "thorough" {
+			n = 40000
+		}
+		if err := runPreproc(o, res, NewRNG(o.Seed+101), n); err != nil {
+			res.InfraError = err.Error()
+		}
+		res.Rule += " || source clean-up: generated sources built from comment brackets, '#', braces, line breaks, tabs, blanks, \\r \\f \\v and tags, under both keep-format settings; the parser's cutComments/cutFmt (VerifPreprocess hook) against Model/Preproc.v byte for byte"
+		res.WriteReplays(o.Verif+"/evidence/replays", "C01")
+		return res
 	}
 	runners["C17"] = func(o *Options) *Result {
 		return runInterp(o, "C17", profiles["C17"], 60, 1200, corrInterp)
